@@ -409,6 +409,9 @@ def all_styles():
     return ['dark', 'light'] + sorted(pygments.styles.get_all_styles())
 
 
+THOROUGH_KEEP = {'*': 0.55}      # see vf/runner.py (time: about 10 minutes per thorough tier)
+
+
 def cases(tier, seed):
     out = []
     out.append({'name': 'token-table', 'kind': 'call', 'fn': 'table_task', 'family': 'table', 'params': {}})
